@@ -31,8 +31,8 @@ def declare(reg):
     )
     reg.specfn(
         "denote_upto", "S: list[MsgElt], mx: int, x: int, n: int", "bool",
-        "exists(lambda k: 0 <= k and k < n and elt_has(S[k], mx, x))",
-        doc="x is denoted by one of the first n elements of S",
+        "exists(lambda k: 0 <= k and k < n and elt_has(S[k], mx, x))", recursive=True,
+        doc="x is denoted by one of the first n elements of S (a named function, so applications are E-matching triggers)",
     )
     reg.specfn("denotes", "S: list[MsgElt], mx: int, x: int", "bool", "denote_upto(S, mx, x, len(S))")
     # element that a non-UID command must reject (C15 g): number outside 1..mx, `*` in an empty mailbox
